@@ -25,6 +25,8 @@ pub struct Knobs {
     pub nonfinite: bool,
     /// probability (in 1/16) that a collection is empty
     pub empty_bias: u8,
+    /// zero-sized element vectors may be astronomically long (offsets cross 2^32 at no memory cost)
+    pub zst_huge: bool,
 }
 
 impl Default for Knobs {
@@ -38,6 +40,7 @@ impl Default for Knobs {
             arith_next: 0,
             nonfinite: true,
             empty_bias: 2,
+            zst_huge: false,
         }
     }
 }
@@ -55,12 +58,13 @@ impl Knobs {
             arith_next: 0,
             nonfinite: true,
             empty_bias: *rng.pick(&[0u8, 1, 2, 4, 8]),
+            zst_huge: false,
         }
     }
     pub fn to_json(&self) -> J {
         json!({"str_class": self.str_class, "small_domain": self.small_domain, "max_len": self.max_len,
                "int_mode": self.int_mode, "arith_step": self.arith_step, "nonfinite": self.nonfinite,
-               "empty_bias": self.empty_bias})
+               "empty_bias": self.empty_bias, "zst_huge": self.zst_huge})
     }
 }
 
@@ -579,8 +583,24 @@ impl Value for String {
     }
 }
 
+/// Length above which a vector of zero-sized elements is handled by length only.
+pub const ZST_BIG: usize = 1 << 16;
+
+fn zst_vec<T>(n: usize) -> Vec<T> {
+    assert_eq!(std::mem::size_of::<T>(), 0);
+    let mut v: Vec<T> = Vec::new();
+    // SAFETY: T is zero-sized (only `()` is used), so no memory is read or written and the
+    // capacity of the vector is usize::MAX.
+    unsafe { v.set_len(n) };
+    v
+}
+
 impl<T: Value> Value for Vec<T> {
     fn gen(g: &mut Gen) -> Self {
+        if std::mem::size_of::<T>() == 0 && g.k.zst_huge && g.rng.chance(1, 5) {
+            let n = *g.rng.pick(&[(1usize << 31) - 1, 1 << 31, (1 << 32) - 1, 1 << 32, (1 << 32) + 5, 1 << 33, 3 << 32]);
+            return zst_vec(n);
+        }
         let n = g.len();
         g.depth += 1;
         let v = (0..n).map(|_| T::gen(g)).collect();
@@ -588,17 +608,36 @@ impl<T: Value> Value for Vec<T> {
         v
     }
     fn beq(&self, o: &Self) -> bool {
+        if std::mem::size_of::<T>() == 0 {
+            return self.len() == o.len();
+        }
         self.len() == o.len() && self.iter().zip(o).all(|(a, b)| a.beq(b))
     }
     fn to_json(&self) -> J {
+        if std::mem::size_of::<T>() == 0 && self.len() > 8 {
+            return json!({ "zst_len": self.len() });
+        }
         J::Array(self.iter().map(Value::to_json).collect())
     }
     fn from_json(j: &J) -> Option<Self> {
+        if let Some(n) = j.get("zst_len") {
+            if std::mem::size_of::<T>() != 0 {
+                return None;
+            }
+            return Some(zst_vec(n.as_u64()? as usize));
+        }
         j.as_array()?.iter().map(T::from_json).collect()
     }
     fn shrinks(&self) -> Vec<Self> {
         let mut out = Vec::new();
         if self.is_empty() {
+            return out;
+        }
+        if std::mem::size_of::<T>() == 0 && self.len() > 8 {
+            out.push(Vec::new());
+            out.push(zst_vec(1));
+            out.push(zst_vec(self.len() / 2));
+            out.push(zst_vec(self.len() - 1));
             return out;
         }
         out.push(Vec::new());
@@ -621,23 +660,45 @@ impl<T: Value> Value for Vec<T> {
         out
     }
     fn weight(&self) -> usize {
+        if std::mem::size_of::<T>() == 0 {
+            return 1 + self.len().min(64);
+        }
         1 + self.iter().map(Value::weight).sum::<usize>() + self.len()
     }
     fn has_nonfinite(&self) -> bool {
+        if std::mem::size_of::<T>() == 0 {
+            return false;
+        }
         self.iter().any(Value::has_nonfinite)
     }
+    fn json_safe(&self) -> bool {
+        if std::mem::size_of::<T>() == 0 {
+            // a text format would spell out every unit
+            return self.len() <= ZST_BIG;
+        }
+        self.iter().all(Value::json_safe)
+    }
     fn peq(&self, o: &Self) -> bool {
+        if std::mem::size_of::<T>() == 0 {
+            return self.len() == o.len();
+        }
         self.len() == o.len() && self.iter().zip(o).all(|(a, b)| a.peq(b))
     }
     fn stored_len(&self) -> Option<usize> {
         Some(self.len())
     }
     fn leaves(&self, out: &mut Vec<u32>) {
+        if std::mem::size_of::<T>() == 0 {
+            return;
+        }
         for x in self {
             x.leaves(out);
         }
     }
     fn byte_strings(&self, out: &mut Vec<Vec<u8>>) {
+        if std::mem::size_of::<T>() == 0 {
+            return;
+        }
         // A Vec<u8> is itself a byte string; anything else recurses.
         let mut l = Vec::new();
         if std::any::TypeId::of::<T>() == std::any::TypeId::of::<u8>() {
@@ -650,6 +711,9 @@ impl<T: Value> Value for Vec<T> {
         }
     }
     fn payload_bytes(&self) -> usize {
+        if std::mem::size_of::<T>() == 0 {
+            return 0;
+        }
         self.iter().map(Value::payload_bytes).sum()
     }
 }
@@ -700,6 +764,9 @@ impl<T: Value> Value for Option<T> {
     }
     fn has_nonfinite(&self) -> bool {
         self.as_ref().map(Value::has_nonfinite).unwrap_or(false)
+    }
+    fn json_safe(&self) -> bool {
+        self.as_ref().map(Value::json_safe).unwrap_or(true)
     }
     fn peq(&self, o: &Self) -> bool {
         match (self, o) {
@@ -769,6 +836,12 @@ impl<T: Value, E: Value> Value for Result<T, E> {
             Err(x) => x.has_nonfinite(),
         }
     }
+    fn json_safe(&self) -> bool {
+        match self {
+            Ok(x) => x.json_safe(),
+            Err(x) => x.json_safe(),
+        }
+    }
     fn peq(&self, o: &Self) -> bool {
         match (self, o) {
             (Ok(a), Ok(b)) => a.peq(b),
@@ -808,6 +881,7 @@ macro_rules! value_tuple {
             fn weight(&self) -> usize { 0 $(+ self.$i.weight())+ }
             fn has_nonfinite(&self) -> bool { false $(|| self.$i.has_nonfinite())+ }
             fn peq(&self, o: &Self) -> bool { true $(&& self.$i.peq(&o.$i))+ }
+            fn json_safe(&self) -> bool { true $(&& self.$i.json_safe())+ }
             fn payload_bytes(&self) -> usize { 0 $(+ self.$i.payload_bytes())+ }
         }
     };
